@@ -50,6 +50,24 @@ def make(kind):
     return desper.World()
 
 
+FLAVOURS = ('falsy', 'empty', 'equal')
+_flavoured = {}
+
+
+def flavoured(base, flavour):
+    """subclass of `base` whose INSTANCES have unusual truthiness / equality (identity is what counts):
+    falsy: __bool__ False; empty: __len__ 0; equal: == everything, constant hash"""
+    if flavour == 'plain':
+        return base
+    if (base, flavour) not in _flavoured:
+        ns = {'falsy': {'__bool__': lambda self: False},
+              'empty': {'__len__': lambda self: 0},
+              'equal': {'__eq__': lambda self, other: True, '__ne__': lambda self, other: False,
+                        '__hash__': lambda self: 7}}[flavour]
+        _flavoured[(base, flavour)] = type(flavour.capitalize() + base.__name__, (base,), dict(ns))
+    return _flavoured[(base, flavour)]
+
+
 class LoadFault(OSError):
     """the transient failure injected into load()"""
 
@@ -126,23 +144,27 @@ def absorb(sp, t, when):
     return nl, nc
 
 
-def h_access(sp, L=3, n_handles=2, kinds=KINDS, faults=0, retake=False):
+def h_access(sp, L=3, n_handles=2, kinds=KINDS, faults=0, retake=False, flavours=('plain',)):
     kind = sp.pick(list(kinds), 'kind')
     # load fault: the load attempt number `fail_at` (solver-chosen in 1..faults) of every handle raises once
     fail_at = sp.choose(faults, 'fail_at') + 1 if faults else 0
-    m = ResourceMap()
+    flavour = sp.pick(list(flavours), 'flavour')       # instance flavour of the handle objects and of the maps
+    HandleCls = flavoured(LogHandle, flavour)
+    m = flavoured(ResourceMap, flavour)()
+    if flavour != 'plain':
+        sp.cover('flavour-' + flavour)
     hs = []
     if n_handles >= 2:
-        h0 = LogHandle('h0@_k', kind, fail_at)
+        h0 = HandleCls('h0@_k', kind, fail_at)
         m['_k'] = h0
         hs.append(h0)
-    h1 = LogHandle('h1@a/k', kind, fail_at)
+    h1 = HandleCls('h1@a/k', kind, fail_at)
     m['a/k'] = h1
     hs.append(h1)
     st = m.get_static_map()
     tracks = [Track(h) for h in hs]
     loop = desper.SimpleLoop() if kind == 'world' else None
-    sp.note('loaded value kind: %s%s' % (kind, ', load attempt %d raises' % fail_at if fail_at else ''))
+    sp.note('handle objects: %s; loaded value kind: %s%s' % (flavour, kind, ', load attempt %d raises' % fail_at if fail_at else ''))
 
     def paths_for(h):
         if h is h1:
@@ -293,6 +315,8 @@ HARNESSES = {
 _FAULT_REQ = ['load-fault', 'access-after-fault', 'static-access-after-fault', 'load-fault-after-clear',
               'cached-hit', 'reload-after-clear']
 
+_FLAV_REQ = ['flavour-falsy', 'flavour-empty', 'flavour-equal', 'cached-hit', 'reload-after-clear', 'static-access',
+             'clear-cached', 'switch', 'switch-clears']
 _RETAKE_REQ = ['retake', 'retake-while-cached', 'kept-static-taken-while-cached', 'kept-static-reload-after-clear',
                'cached-hit', 'reload-after-clear', 'static-access', 'clear-cached']
 
@@ -301,13 +325,16 @@ TIERS = {
               ('access', dict(L=4, n_handles=1, kinds=['None', '[]'], retake=True), {'required': _RETAKE_REQ}),
               ('access', dict(L=4, n_handles=1, kinds=['[]'], faults=2), {'required': _FAULT_REQ}),
               ('access', dict(L=3, n_handles=1, kinds=['world'], faults=2),
-               {'required': _FAULT_REQ[:2] + ['switch-load-fault']})],
+               {'required': _FAULT_REQ[:2] + ['switch-load-fault']}),
+              ('access', dict(L=3, n_handles=1, kinds=['[]', 'world'], flavours=FLAVOURS), {'required': _FLAV_REQ})],
     'thorough': [('access', dict(L=5, n_handles=1, retake=True),
                   {'required': _RETAKE_REQ + ['switch', 'switch-clears', 'cached-hit-falsy']}),
                  ('access', dict(L=4, n_handles=2)),
                  ('access', dict(L=4, n_handles=2, kinds=['[]'], retake=True), {'required': _RETAKE_REQ}),
                  ('access', dict(L=4, n_handles=1, faults=3), {'required': _FAULT_REQ + ['switch-load-fault']}),
-                 ('access', dict(L=3, n_handles=2, faults=2), {'required': _FAULT_REQ + ['switch-load-fault']})],
+                 ('access', dict(L=3, n_handles=2, faults=2), {'required': _FAULT_REQ + ['switch-load-fault']}),
+                 ('access', dict(L=4, n_handles=1, flavours=FLAVOURS), {'required': _FLAV_REQ + ['cached-hit-falsy']}),
+                 ('access', dict(L=3, n_handles=2, kinds=['[]', 'world'], flavours=FLAVOURS), {'required': _FLAV_REQ})],
 }
 BUDGET_S = {'quick': 300, 'thorough': 1500}
 
@@ -329,6 +356,8 @@ BOUNDS = {
                 'all kinds, 1 handle, attempt 1..3 raises, 4 ops; 2 handles, attempt 1..2, 3 ops',
 }
 ASSUMPTIONS = [
+    'flavour entries: the Handle objects (and the maps holding them) are instances of subclasses that are falsy, '
+    'empty (__len__ 0) or equal to everything; the oracle is unchanged and only compares identities',
     'load fault entries: a load() that raises has loaded nothing, so the exception must reach the accessor (there is '
     'no object an access could return, and a silent retry would be a second load), the handle is not cached '
     'afterwards and the next access loads afresh and returns that object; the fault is an OSError subclass raised '
